@@ -164,12 +164,14 @@ def run(rep, pdb, tier):
         def N(t):
             return rewrite_eqs(t, tie)
 
-        def upd_ok(e, inner_lo_of_i, inner_hi_of_i, rev):
+        def upd_ok(e, inner_lo_of_i, inner_hi_of_i, rev, skip_first=False):
             rj, ri, rk = [for_range(ictx, l) for l in e.loops]
             j, i, k = rj[0], ri[0], rk[0]
-            return ((rj[1], N(rj[2]), rj[3]) == (num(0), ROWS, False) and (ri[1], N(ri[2])) == (num(0), ROWS) and ri[4] == rev and rk[1] == inner_lo_of_i(i) and N(rk[2]) == inner_hi_of_i(i) and not rk[3]
+            # the forward sweep may start at row 1: the iteration i = 0 has the empty inner range 0..0
+            lo_ok = ri[1] == num(0) or (skip_first and ri[1] == num(1) and not ri[4])
+            return ((rj[1], N(rj[2]), rj[3]) == (num(0), ROWS, False) and lo_ok and N(ri[2]) == ROWS and ri[4] == rev and rk[1] == inner_lo_of_i(i) and N(rk[2]) == inner_hi_of_i(i) and not rk[3]
                     and e.target == invt and e.index == ("tup", i, j) and e.value == ("op", "*", ("idx", lut, ("tup", i, k)), ("idx", invt, ("tup", k, j)))), (i, j)
-        okf, _ = upd_ok(fw, lambda i: num(0), lambda i: i, False)
+        okf, _ = upd_ok(fw, lambda i: num(0), lambda i: i, False, skip_first=True)
         okb, (bi, bj) = upd_ok(bw, lambda i: lin_add(i, num(1)), lambda i: ROWS, True)
         dv = dvs[0]
         okd = dv.target == invt and dv.index == ("tup", bi, bj) and dv.value == ("idx", lut, ("tup", bi, bi)) and dv.loops == bw.loops[:2]
